@@ -514,7 +514,7 @@ def gen_run_jobs(ctx, n):
                      'elem_num': elem_num, 'cos_thresh': cos_t, 'dist_thresh': dist_t,
                      'knns': knns, 'transfers': transfers, 'second': second,
                      'geo_edges': {'seed': rng.randrange(2 ** 30), 'cells': 3 if thorough else 2, 'steps': 6},
-                     'driver_pass': bool(thorough or i % 2 == 0)})
+                     'driver_pass': bool((thorough or i % 2 == 0) and n_cells <= 400)})
     return jobs
 
 
